@@ -342,6 +342,47 @@ Theorem C08_x86_64_linux_ktext_agree_partial : forall koff a p v q,
 Proof. exact ktext_linear_agrees. Qed.
 Print Assumptions C08_x86_64_linux_ktext_agree_partial.
 
+(** the kernel text region found by [linux_ktext_extents].  In general it is
+    NOT a subset of what the page tables map linearly ([highest_linear] tests
+    run heads only and the region spans the gaps between runs); on a canonical
+    image — one run [base, top_] of whole pages in the text window, ending below
+    the no-KASLR limit — it is exactly the run, [base] translates with the
+    offset the kernel-text method has ... *)
+Theorem C08_x86_64_linux_ktext_finds_region : forall img hl_fuel s ras root mask pf tgt base top_ low high,
+  pgt_meth s = {| m_kind := KPgt ras root mask pf; m_target := tgt |} ->
+  pte_format pf = PTE_X86_64 -> x86_64_form (fieldsz pf) ->
+  (forall a x, rd img s a x <> RdErr OK) ->
+  LINUX_KTEXT_START <= base -> base <= top_ -> top_ < LINUX_KTEXT_END_NOKASLR ->
+  base mod 2^12 = 0 -> (top_ + 1) mod 2^12 = 0 ->
+  (forall a, LINUX_KTEXT_START <= a -> a < base -> x86_unmapped (rd img s) tgt mask pf ras root a) ->
+  (forall a, base <= a -> a <= top_ -> x86_mapped (rd img s) tgt mask pf ras root a) ->
+  (forall a, top_ < a -> a <= LINUX_KTEXT_END_NOKASLR -> x86_unmapped (rd img s) tgt mask pf ras root a) ->
+  linux_ktext_extents img hl_fuel s = (OK, (low, high)) ->
+  low = base /\ high = top_ /\
+  exists p, kv2kphys img s base = (OK, p) /\
+            wsub p base = Z.to_N (lin_off (get_meth s METH_KTEXT) mod 2^64)%Z.
+Proof. exact ktext_extents_finds. Qed.
+Print Assumptions C08_x86_64_linux_ktext_finds_region.
+
+(** ... and where the run is mapped with one offset, the kernel-text method
+    agrees with the page tables on every address of the region *)
+Theorem C08_x86_64_linux_ktext_agree : forall img hl_fuel s ras root mask pf tgt base top_ low high,
+  pgt_meth s = {| m_kind := KPgt ras root mask pf; m_target := tgt |} ->
+  pte_format pf = PTE_X86_64 -> x86_64_form (fieldsz pf) ->
+  (forall a x, rd img s a x <> RdErr OK) ->
+  LINUX_KTEXT_START <= base -> base <= top_ -> top_ < LINUX_KTEXT_END_NOKASLR ->
+  base mod 2^12 = 0 -> (top_ + 1) mod 2^12 = 0 ->
+  (forall a, LINUX_KTEXT_START <= a -> a < base -> x86_unmapped (rd img s) tgt mask pf ras root a) ->
+  (forall a, base <= a -> a <= top_ -> x86_mapped (rd img s) tgt mask pf ras root a) ->
+  (forall a, top_ < a -> a <= LINUX_KTEXT_END_NOKASLR -> x86_unmapped (rd img s) tgt mask pf ras root a) ->
+  (exists off, forall a p, base <= a -> a <= top_ -> kv2kphys img s a = (OK, p) -> wsub p a = off) ->
+  linux_ktext_extents img hl_fuel s = (OK, (low, high)) ->
+  low = base /\ high = top_ /\
+  forall a p, base <= a -> a <= top_ -> p < 2^64 -> kv2kphys img s a = (OK, p) ->
+              lin (lin_off (get_meth s METH_KTEXT)) a = p.
+Proof. exact ktext_extents_agree. Qed.
+Print Assumptions C08_x86_64_linux_ktext_agree.
+
 (** * riscv64 and aarch64 Linux set-up decisions (models Sys/LinuxRvA64Model.v,
       compared with riscv64.c / aarch64.c on every synthesised image)
 
